@@ -135,7 +135,7 @@ def configs(rng, quick):
         nd = rng.choice([2, 3, 4])
         shape = [rng.randint(2, 7) for _ in range(nd)]
         perms = sl.all_perms(nd)
-        ndist = rng.choice([1, 2]) if nd > 2 else 1
+        ndist = rng.choice([1, 2] + ([3] if nd == 4 else [])) if nd > 2 else 1     # process grids of every length the handler accepts
         k = rng.randint(2, 4)
         for _try in range(50):
             chosen = rng.sample(perms, min(k, len(perms)))
@@ -205,7 +205,7 @@ def run(ctx):
         for _ in range(25 if quick else 250):
             shape = [rng.randint(1, 9) for _ in range(nd)]
             order = rng.choice(perms)
-            ndist = rng.randint(1, min(2, nd))
+            ndist = rng.randint(1, max(1, nd - 1))
             nprocs = [rng.randint(1, shape[order[i]]) for i in range(ndist)]
             for rc in itertools.product(*[range(p) for p in nprocs]):
                 events.append(layout_event(shape, order, nprocs, rc))
